@@ -10,7 +10,9 @@ import (
 	"testing"
 	"time"
 
+	autoscalingv1 "k8s.io/api/autoscaling/v1"
 	corev1 "k8s.io/api/core/v1"
+	"k8s.io/apimachinery/pkg/api/resource"
 	metav1 "k8s.io/apimachinery/pkg/apis/meta/v1"
 	"sigs.k8s.io/controller-runtime/pkg/client"
 
@@ -78,7 +80,38 @@ func batch(kind string, k int, fail func(i int) bool) {
 	l.ReconcileERS("ns", rs.Name)
 }
 
+// batchSharedSetting: a creation batch in which every node is selected by ONE valid ExtendedDaemonsetSetting and some
+// nodes also carry a resource override annotation for the same container (objects shared between the goroutines).
+func batchSharedSetting(k int) {
+	now := time.Now()
+	eds := w.NewEDS("ns", "foo", "A", w.WithFrequency(0), w.WithRolling("1", "100%", 250, time.Minute))
+	eds = v1.DefaultExtendedDaemonSet(eds, "auto")
+	rs := ers("ns", "foo-a", "foo", w.Tpl("A"), now)
+	eds.Status.ActiveReplicaSet = rs.Name
+	set := &v1.ExtendedDaemonsetSetting{ObjectMeta: metav1.ObjectMeta{Namespace: "ns", Name: "set1", CreationTimestamp: metav1.NewTime(now)},
+		Spec: v1.ExtendedDaemonsetSettingSpec{Reference: &autoscalingv1.CrossVersionObjectReference{Name: "foo"},
+			Containers: []v1.ExtendedDaemonsetSettingContainerSpec{{Name: "main", Resources: corev1.ResourceRequirements{
+				Requests: corev1.ResourceList{corev1.ResourceCPU: resource.MustParse("100m")}, Limits: corev1.ResourceList{corev1.ResourceMemory: resource.MustParse("64Mi")}}}}},
+		Status: v1.ExtendedDaemonsetSettingStatus{Status: v1.ExtendedDaemonsetSettingStatusValid}}
+	objs := []client.Object{eds, rs, set}
+	for i := 0; i < k; i++ {
+		n := w.MkNode(fmt.Sprintf("n%d", i+1), nil)
+		if i%2 == 0 {
+			n.Annotations = map[string]string{"resources.extendeddaemonset.datadoghq.com/ns.foo.main": fmt.Sprintf(`{"requests":{"cpu":"%d"}}`, i+2)}
+		}
+		objs = append(objs, n)
+	}
+	l := w.NewLive(w.NewState(0, objs...), w.Config{})
+	l.ReconcileERS("ns", rs.Name)
+}
+
 func TestRaceBatches(t *testing.T) {
+	for _, k := range []int{2, 3, 8, 64} {
+		for rep := 0; rep < 5; rep++ {
+			batchSharedSetting(k)
+		}
+		fmt.Printf("RACEBODY create-shared-setting k=%d\n", k)
+	}
 	for _, kind := range []string{"create", "delete", "cleanup"} {
 		for _, k := range []int{2, 3, 8, 64} {
 			for name, f := range map[string]func(int) bool{"none": func(int) bool { return false }, "one": func(i int) bool { return i == 0 },
